@@ -303,7 +303,8 @@ class Type4Tag(nfc.tag.Tag):
 
             self._max_le = mle
             self._max_lc = mlc
-            self._capacity = mfs - tag + 2
+            # READ/UPDATE BINARY address the file with a 16 bit offset in P1-P2
+            self._capacity = min(mfs, 0x10000) - tag + 2
             self._readable = bool(rf == 0)
             self._writeable = bool(wf == 0)
             self._nlen_size = tag - 2
